@@ -78,7 +78,9 @@ def numeric_statements(r, n):
             p = transform.perturb_lla(lla, d)
             dd = transform.compute_lla_difference(p, lla)
             nn = transform.lla_to_ned(np.array([p]), lla)[0]
-            if np.abs(dd - d).max() > 1e-4 or np.abs(nn - d).max() > 1e-4:
+            # first order: the neglected terms are O(|d|^2 (1 + |tan lat|) / R); margin 20x
+            tol1 = 1e-6 + 20 * float(d @ d) * (1 + abs(math.tan(math.radians(lat)))) / 6.3e6
+            if np.abs(dd - d).max() > tol1 or np.abs(nn - d).max() > tol1:
                 bad("perturb_lla / compute_lla_difference / lla_to_ned disagree to first order",
                     lla=list(lla), d=list(d), diff=list(map(float, dd)), ned=list(map(float, nn)))
             # curvature matrix vs rotation of the frame under displacement (north / east)
@@ -91,7 +93,8 @@ def numeric_statements(r, n):
                 m2 = transform.mat_en_from_ll(p2[0], p2[1])
                 dm = (m.T @ m2 - np.eye(3)) / s      # = skew(rotation of new frame in old)
                 rot = np.array([dm[2, 1], dm[0, 2], dm[1, 0]])
-                if np.abs(rot - F @ e).max() > 1e-9:
+                tl = abs(math.tan(math.radians(lat)))
+                if np.abs(rot - F @ e).max() > 1e-12 + 20 * (1 + tl * tl) * s * s / 6.3e6 ** 2:
                     bad("curvature_matrix != rotation of NED frame under displacement",
                         lla=list(lla), axis=k, rot=list(map(float, rot)), want=list(map(float, F @ e)))
         if -1000 <= alt <= 1e5:
